@@ -225,27 +225,59 @@ def check_site_registry(prog, rep):
                       'a product of operators needs a JW string iff an odd number of factors '
                       'does: ' + why, f.lineno)
     # get_hc_op_name: reversed order, each factor mapped
-    f = m.func('Site.get_hc_op_name')
+    f = inline_temps(m.func('Site.get_hc_op_name'))
     rep.instance('SITE-hc-name', {})
     src = unparse(f)
-    if 'reversed(names)' not in src or 'self.hc_ops.get(' not in src:
+    nrev = src.count('reversed(') + src.count('[::-1]') + src.count('.reverse()') + \
+        src.count('.insert(0,')
+    mapped = any(pmatch('self.hc_ops.get($$x)', c) or pmatch('self.hc_ops.get($$x, $$d)', c) or
+                 pmatch('self.hc_ops[$$x]', c) for c in body_nodes(f))
+    if nrev % 2 != 1 or not mapped or 'split()' not in src:
         rep.violation('SITE-hc-name', m, 'Site.get_hc_op_name', 'hc-product',
                       '(A B)^dagger = B^dagger A^dagger: factors must be mapped through hc_ops in '
-                      'reversed order', f.lineno)
+                      'reversed order (found %d order reversals)' % nrev, f.lineno)
 
 
 def check_grouped_site(prog, rep):
     m = prog.module(SITE)
     f = m.func('GroupedSite.__init__')
-    src = unparse(f)
     rep.instance('GROUPED-jw', {'rule': 'operator lists'})
-    ok = 'ops = JW_Ids if need_JW else Ids' in src and 'Ids[i] = site.Id' in src and \
-        'JW_Ids[i] = site.JW' in src and 'self.kroneckerproduct([s.JW for s in sites])' in src
-    if not ok:
+    why = None
+    sel = find('$ops = $J if $$c else $I', f)
+    sel = [(n, e) for n, e in sel if unparse(e['$$c']) in ('need_JW', 'need_JW is True')]
+    if len(sel) != 1:
+        why = 'the choice between the JW list and the identity list by need_JW was not found'
+    else:
+        e = sel[0][1]
+        ops, J, I_ = e['$ops'], e['$J'], e['$I']
+        put = find('%s[$i] = $$op' % ops, f)
+        rest_i = find('%s[$i] = $$s.Id' % I_, f)
+        rest_j = find('%s[$i] = $$s.JW' % J, f)
+        inits = {unparse(st.targets[0]): unparse(st.value) for st in stmts_of(f)
+                 if isinstance(st, ast.Assign) and len(st.targets) == 1}
+        if not put or not rest_i or not rest_j:
+            why = 'operator slot / restoration of both lists (Ids[i] = Id, JW_Ids[i] = JW) missing'
+        elif len({x[1]['$i'] for x in put + rest_i + rest_j}) != 1:
+            why = 'the slot written and the slots restored use different indices'
+        elif '.Id for' not in inits.get(I_, '') or not (
+                inits.get(J, '').startswith(I_) or '.Id for' in inits.get(J, '')):
+            why = 'both working lists must start as the list of identities'
+        else:
+            # the slot is restored after the product was taken (same block as the put)
+            pn = put[0][0]
+            use = [c for c in body_nodes(f) if isinstance(c, ast.Call) and
+                   dotted(c.func) == 'self.kroneckerproduct' and ops in names_in(c)]
+            if not use or any(n.lineno < use[0].lineno or parent(n) is not parent(pn)
+                              for n, _ in rest_i + rest_j):
+                why = 'both lists must be restored right after the product with the operator ' \
+                    'in slot i was taken'
+    if 'self.kroneckerproduct([s.JW for s in sites])' not in unparse(f) and why is None:
+        why = 'the JW string of the grouped site is the product of the JW strings of all sub-sites'
+    if why:
         rep.violation('GROUPED-jw', m, 'GroupedSite.__init__', 'jw-lists',
                       'a fermionic operator of sub-site i must be combined with JW on the '
                       'sub-sites left of it and Id elsewhere; after sub-site i is done both lists '
-                      'must be restored (Ids[i]=Id, JW_Ids[i]=JW)', f.lineno)
+                      'must be restored (Ids[i]=Id, JW_Ids[i]=JW): ' + why, f.lineno)
     # local aliasing of two working lists
     check_local_alias(rep, m, 'GroupedSite.__init__', f)
     # need_JW flag and hc name forwarded to add_op
@@ -471,12 +503,11 @@ def check_jw_entry_points(prog, rep):
     _check_coupling_handler(t, rep)
     f = t.func('MultiCouplingTerms.multi_coupling_term_handle_JW')
     rep.instance('JW-entry', {'function': 'multi_coupling_term_handle_JW'})
-    src = unparse(f)
-    if 'JW_right = not JW_right' not in src or "multiply_op_names([ops[x], 'JW'])" not in src or \
-            'odd number' not in src:
+    why = _multi_handler_defect(f)
+    if why:
         rep.violation('JW-entry', t, 'MultiCouplingTerms.multi_coupling_term_handle_JW', 'handler',
-                      'the string toggles at every fermionic operator; an odd total is an error',
-                      f.lineno)
+                      'the string toggles at every fermionic operator; an odd total is an error: '
+                      + why, f.lineno)
     f = t.func('order_combine_term')
     rep.instance('JW-entry', {'function': 'order_combine_term'})
     why = _swap_sign_defect(f)
@@ -484,6 +515,60 @@ def check_jw_entry_points(prog, rep):
         rep.violation('JW-entry', t, 'order_combine_term', 'swap-sign',
                       'each transposition of two fermionic operators (and only those) flips the '
                       'sign, and only when the pair is actually swapped: ' + why, f.lineno)
+
+
+def _multi_handler_defect(f):
+    """From left to right a flag says whether a Jordan-Wigner string is open: it toggles at every
+    fermionic operator; while it is set the operator is multiplied by JW (from the right) and the
+    string to the next operator is 'JW', otherwise 'Id'; a string still open at the end is an
+    error."""
+    tog = find('$f = not $f', f) + find('$f = $f != $$m', f) + find('$f ^= $$m', f)
+    tog = [(n, e) for n, e in tog if isinstance(parent(n), (ast.If, ast.For))]
+    if len(tog) != 1:
+        return '%d toggles of the open-string flag found' % len(tog)
+    node, e = tog[0]
+    flag = e['$f']
+    lp = parent(node)
+    while lp is not None and not isinstance(lp, ast.For):
+        lp = parent(lp)
+    if lp is None or not isinstance(lp.target, ast.Name):
+        return 'the toggle is not inside the loop over the operators'
+    x = lp.target.id
+    g = _guards(f, node)
+    if '$$m' in e:
+        if 'op_needs_JW[%s]' % x not in unparse(e['$$m']):
+            return 'the flag must toggle with op_needs_JW[%s]' % x
+    elif ('op_needs_JW[%s]' % x, True) not in g:
+        return 'the flag must toggle exactly when op_needs_JW[%s]' % x
+    inits = [st for st in stmts_of(f) if isinstance(st, ast.Assign) and
+             unparse(st.targets[0]) == flag and st.lineno < lp.lineno]
+    if not inits or unparse(inits[-1].value) != 'False':
+        return 'no string is open before the first operator (flag starts False)'
+    app_jw = [n for n, _ in find("$$l.append('JW')", lp)]
+    app_id = [n for n, _ in find("$$l.append('Id')", lp)]
+    mult = [n for n, _ in find("ops[%s] = $$s.multiply_op_names([ops[%s], 'JW'])" % (x, x), lp)]
+    if not app_jw or not app_id or not mult:
+        return "per operator: 'JW' string + operator times JW while open, 'Id' otherwise"
+
+    def st_of(n):
+        while not isinstance(n, ast.stmt):
+            n = parent(n)
+        return n
+
+    for n in app_jw + mult:
+        if (flag, True) not in _guards(f, st_of(n)) or st_of(n).lineno < node.lineno:
+            return "`%s` must happen while the string is open (after the toggle)" % unparse(n)[:50]
+    for n in app_id:
+        if (flag, False) not in _guards(f, st_of(n)) or st_of(n).lineno < node.lineno:
+            return "`%s` must happen while no string is open (after the toggle)" % unparse(n)[:50]
+    if 'sites[ijkl[%s] %% L]' % x not in unparse(mult[0]) and \
+            'sites[ijkl[%s] %% self.L]' % x not in unparse(mult[0]):
+        return 'JW must be taken from the site of that operator'
+    rs = [st for st in ast.walk(f) if isinstance(st, ast.Raise) and st.lineno > lp.end_lineno and
+          (flag, True) in _guards(f, st)]
+    if not rs:
+        return 'a string still open after the last operator (odd number) must raise'
+    return None
 
 
 def _swap_sign_defect(f):
